@@ -441,7 +441,19 @@ def substitute_stable_locals(tree):
             # the names the expression reads: parameters or locals of an enclosing scope / loop variables bound once
             reads = [x.id for x in ast.walk(st.value) if isinstance(x, ast.Name)]
             if any(len(stores.get(r, [])) > 1 for r in reads):
-                continue
+                # a name of the expression is bound more than once in the function (a loop variable used by several loops): still fine
+                # when the local lives entirely in the rest of its own block and nothing there re-binds those names
+                loc0 = _locate(fn, st)
+                if loc0 is None:
+                    continue
+                blk0, i0 = loc0
+                region = blk0[i0 + 1:]
+                uses_all = [x for x in _own_walk(fn) if isinstance(x, ast.Name) and x.id == nm and x is not st.targets[0]]
+                in_region = {id(x) for r_ in region for x in ast.walk(r_)}
+                if not uses_all or any(id(x) not in in_region for x in uses_all):
+                    continue
+                if any(isinstance(x, ast.Name) and x.id in reads and isinstance(x.ctx, (ast.Store, ast.Del)) for r_ in region for x in ast.walk(r_)):
+                    continue
             # used in nested functions? then leave
             if any(isinstance(x, ast.Name) and x.id == nm for g in ast.walk(fn) if isinstance(g, (ast.FunctionDef, ast.Lambda)) and g is not fn for x in ast.walk(g)):
                 continue
@@ -762,6 +774,8 @@ def _bind(call, h, kind, multi_suffix, outer_bound, scope=None):
             known[pn] = False
         simple = isinstance(a, (ast.Name, ast.Constant)) or (isinstance(a, ast.Attribute) and isinstance(a.value, ast.Name)) or \
             (isinstance(a, ast.Attribute) and isinstance(a.value, ast.Attribute) and isinstance(a.value.value, ast.Name))
+        if not simple and pn not in hb and _evaluated_once(h, pn):
+            simple = True       # the argument expression takes the place of the single, unconditional, unrepeated use of the parameter
         if simple and pn not in hb:
             mapping[pn] = a
         else:
@@ -773,6 +787,47 @@ def _bind(call, h, kind, multi_suffix, outer_bound, scope=None):
             if nm in outer_bound or multi_suffix:
                 rename[nm] = '%s__%s%s' % (nm, h.name.lstrip('_'), multi_suffix)
     return mapping, rename, pre, known
+
+
+def _evaluated_once(h, pn):
+    """parameter pn is read exactly once in helper h, at a place evaluated exactly once per call: not in a loop body, a lambda, a
+    conditional branch, or a comprehension other than the iterable of its first generator"""
+    loads = [x for x in ast.walk(h) if isinstance(x, ast.Name) and x.id == pn and isinstance(x.ctx, ast.Load)]
+    if len(loads) != 1:
+        return False
+    target = loads[0]
+
+    def ok(node, once):
+        if node is target:
+            return once
+        if isinstance(node, ast.Lambda):
+            return None if not any(x is target for x in ast.walk(node)) else False
+        if isinstance(node, (ast.ListComp, ast.SetComp, ast.GeneratorExp, ast.DictComp)):
+            if any(x is target for x in ast.walk(node.generators[0].iter)):
+                return ok(node.generators[0].iter, once)
+            return None if not any(x is target for x in ast.walk(node)) else False
+        if isinstance(node, (ast.For, ast.While)):
+            if isinstance(node, ast.For) and any(x is target for x in ast.walk(node.iter)):
+                return ok(node.iter, once)
+            return None if not any(x is target for x in ast.walk(node)) else False
+        if isinstance(node, (ast.If, ast.IfExp)):
+            if any(x is target for x in ast.walk(node.test)):
+                return ok(node.test, once)
+            return None if not any(x is target for x in ast.walk(node)) else False
+        if isinstance(node, ast.BoolOp):
+            if any(x is target for x in ast.walk(node.values[0])):
+                return ok(node.values[0], once)
+            return None if not any(x is target for x in ast.walk(node)) else False
+        for ch in ast.iter_child_nodes(node):
+            r = ok(ch, once)
+            if r is not None:
+                return r
+        return None
+    for st in h.body:
+        r = ok(st, True)
+        if r is not None:
+            return r
+    return False
 
 
 def _stmt_of(scope, node):
@@ -850,7 +905,8 @@ def _inline_one(scope, call, h, kind, cls_name, gen, se, void_body, multi=None):
             or (isinstance(st, ast.For) and st.iter is call) or (isinstance(st, (ast.If, ast.While)) and st.test is call and not pre_s and not pre and isinstance(st, ast.If))
         if not top_value and (pre_s or pre):
             # an expression position: the prefix is hoisted in front of the statement when the call is evaluated unconditionally
-            if not (isinstance(st, (ast.Assign, ast.AugAssign, ast.AnnAssign, ast.Return, ast.Expr)) and _unconditional_in(st, call)):
+            if not ((isinstance(st, (ast.Assign, ast.AugAssign, ast.AnnAssign, ast.Return, ast.Expr)) and _unconditional_in(st, call))
+                    or (isinstance(st, ast.If) and _unconditional_in(st.test, call))):
                 return False
         new_pre = [ast.copy_location(p_, st) for p_ in pre] + [ast.copy_location(x, st) if not hasattr(x, 'lineno') else x for x in conv(pre_s)]
         new_expr = sub.visit(copy.deepcopy(expr))
@@ -980,8 +1036,9 @@ def _role_like(container, h):
             isinstance(x, ast.Call) and isinstance(x.func, ast.Attribute) and x.func.attr in ('elect', 'defeat', 'unpend', 'pend', 'unelect', 'logAction', 'newRound')
             for x in ast.walk(h)):
         return True
-    # zero-parameter boolean used as a loop / if test (countComplete)
-    if not ps and rets:
+    # zero-parameter boolean used as a loop / if test (countComplete) - a predicate: it changes nobody's status
+    if not ps and rets and not any(isinstance(x, ast.Call) and isinstance(x.func, ast.Attribute) and x.func.attr in ('elect', 'defeat', 'unpend', 'unelect')
+                                   for x in ast.walk(h)):
         for x in ast.walk(container):
             if isinstance(x, (ast.While, ast.If)) and any(isinstance(y, ast.Call) and isinstance(y.func, ast.Name) and y.func.id == h.name for y in ast.walk(x.test)):
                 return True
@@ -1171,6 +1228,36 @@ def _unroll_kwargs_loops(body, kwname, items):
     return out
 
 
+def _unroll_vararg_loops(body, vname, items):
+    """`for a, b in ARGS: BODY` / `for x in ARGS: BODY` with ARGS the *args of the helper bound to the extra positional arguments of one
+    call (for a tuple target: each argument a tuple display of that arity): BODY repeated per argument.  None when ARGS is used otherwise."""
+    out = []
+    for st in body:
+        if isinstance(st, ast.For) and isinstance(st.iter, ast.Name) and st.iter.id == vname and not st.orelse \
+                and not any(isinstance(x, (ast.Break, ast.Continue)) for x in ast.walk(st)):
+            if isinstance(st.target, ast.Name):
+                names = [st.target.id]
+                rows = [[a] for a in items]
+            elif isinstance(st.target, ast.Tuple) and all(isinstance(e, ast.Name) for e in st.target.elts):
+                names = [e.id for e in st.target.elts]
+                if not all(isinstance(a, (ast.Tuple, ast.List)) and len(a.elts) == len(names) for a in items):
+                    return None
+                rows = [list(a.elts) for a in items]
+            else:
+                return None
+            if any(isinstance(x, ast.Name) and x.id in names and isinstance(x.ctx, ast.Store) for b_ in st.body for x in ast.walk(b_)):
+                return None
+            for row in rows:
+                sub = _Subst(dict(zip(names, row)), {})
+                for b_ in st.body:
+                    out.append(sub.visit(copy.deepcopy(b_)))
+        else:
+            out.append(st)
+    if any(isinstance(x, ast.Name) and x.id == vname for s_ in out for x in ast.walk(s_)):
+        return None
+    return out
+
+
 def inline_inherited_helpers(trees):
     """trees: {module name: module ast}.  A method H of class B that
          - is defined by exactly one class of the package and is not an anchor / dunder / decorated method,
@@ -1222,7 +1309,7 @@ def inline_inherited_helpers(trees):
                     if nm in own or nm in ANCHOR_METHODS or (nm.startswith('__')) or len(defs.get(nm, [])) != 1:
                         continue
                     bc, h = defs[nm][0]
-                    if bc not in anc or h.decorator_list or h.args.vararg or not h.args.args:
+                    if bc not in anc or h.decorator_list or not h.args.args:
                         continue
                     if _returns_value(h) or any(isinstance(x, (ast.FunctionDef, ast.ClassDef, ast.Lambda, ast.Yield, ast.YieldFrom, ast.Global, ast.Nonlocal))
                                                  for x in ast.walk(h) if x is not h):
@@ -1253,11 +1340,19 @@ def inline_inherited_helpers(trees):
                     # bind the named parameters
                     args = {}
                     ok = True
+                    extra_pos = []
                     for i, a in enumerate(call.args):
                         if i >= len(h.args.args) - 1:
+                            if h.args.vararg:
+                                extra_pos.append(a)
+                                continue
                             ok = False
                             break
                         args[h.args.args[1 + i].arg] = a
+                    if h.args.vararg and ok:
+                        body = _unroll_vararg_loops(body, h.args.vararg.arg, extra_pos)
+                        if body is None:
+                            continue
                     for k in kws:
                         if k.arg in args:
                             ok = False
@@ -1351,4 +1446,89 @@ def void_early_returns(tree):
         for x in fn.body:
             ast.fix_missing_locations(x)
         n += 1
+    return n
+
+
+def unroll_literal_loops(tree):
+    """`for x in (A, B, C): BODY` over a display of at most six simple expressions (names, attribute paths, constants), BODY without
+    break / continue / rebinding of x and no else clause: BODY repeated with x replaced.  (A table of layers walked in a loop is the
+    chain of statements the rules were written for.)"""
+    n = 0
+    changed = True
+    while changed:
+        changed = False
+        for node in ast.walk(tree):
+            for fld in ('body', 'orelse', 'finalbody'):
+                blk = getattr(node, fld, None)
+                if not isinstance(blk, list):
+                    continue
+                for i, st in enumerate(blk):
+                    if not (isinstance(st, ast.For) and isinstance(st.target, ast.Name) and isinstance(st.iter, (ast.Tuple, ast.List)) and not st.orelse
+                            and 1 <= len(st.iter.elts) <= 6):
+                        continue
+                    if not all(isinstance(e, (ast.Name, ast.Constant)) or (isinstance(e, ast.Attribute) and _self_path_any(e)) for e in st.iter.elts):
+                        continue
+                    x = st.target.id
+                    if any(isinstance(y, (ast.Break, ast.Continue, ast.FunctionDef, ast.Lambda)) for b_ in st.body for y in ast.walk(b_)):
+                        continue
+                    if any(isinstance(y, ast.Name) and y.id == x and isinstance(y.ctx, (ast.Store, ast.Del)) for b_ in st.body for y in ast.walk(b_)):
+                        continue
+                    # x must not be used after the loop in the same function (it would keep the last element)
+                    new = []
+                    for e in st.iter.elts:
+                        sub = _Subst({x: e}, {})
+                        for b_ in st.body:
+                            c = sub.visit(copy.deepcopy(b_))
+                            new.append(c)
+                    for c in new:
+                        for y in ast.walk(c):
+                            if not hasattr(y, 'lineno') and isinstance(y, (ast.expr, ast.stmt)):
+                                ast.copy_location(y, st)
+                        ast.fix_missing_locations(c)
+                    blk[i:i + 1] = new
+                    n += 1
+                    changed = True
+                    break
+                if changed:
+                    break
+            if changed:
+                break
+    return n
+
+
+def _self_path_any(e):
+    while isinstance(e, ast.Attribute):
+        e = e.value
+    return isinstance(e, ast.Name)
+
+
+def constant_attr_access(tree):
+    """`setattr(x, 'name', v)` (a statement, the name a string constant that is an identifier) ==> `x.name = v`;
+    `getattr(x, 'name')` (two arguments) ==> `x.name`.  What an unrolled loop over attribute names leaves behind."""
+    n = 0
+
+    class T(ast.NodeTransformer):
+        def visit_Expr(self, node):
+            self.generic_visit(node)
+            c = node.value
+            if isinstance(c, ast.Call) and isinstance(c.func, ast.Name) and c.func.id == 'setattr' and len(c.args) == 3 and not c.keywords \
+                    and isinstance(c.args[1], ast.Constant) and isinstance(c.args[1].value, str) and c.args[1].value.isidentifier() \
+                    and not c.args[1].value.startswith('__'):
+                nonlocal n
+                n += 1
+                tgt = ast.Attribute(value=c.args[0], attr=c.args[1].value, ctx=ast.Store())
+                return ast.copy_location(ast.Assign(targets=[ast.copy_location(tgt, node)], value=c.args[2]), node)
+            return node
+
+        def visit_Call(self, node):
+            self.generic_visit(node)
+            if isinstance(node.func, ast.Name) and node.func.id == 'getattr' and len(node.args) == 2 and not node.keywords \
+                    and isinstance(node.args[1], ast.Constant) and isinstance(node.args[1].value, str) and node.args[1].value.isidentifier() \
+                    and not node.args[1].value.startswith('__'):
+                nonlocal n
+                n += 1
+                return ast.copy_location(ast.Attribute(value=node.args[0], attr=node.args[1].value, ctx=ast.Load()), node)
+            return node
+    T().visit(tree)
+    ast.fix_missing_locations(tree)
     return n
